@@ -653,19 +653,12 @@ def features(v, f, ann_len):
         if (n["s"] in ("optional", "union") or plain_pipe) and any(union_like(n[k]) for k in ("x", "y") if k in n):
             out.append("typing-union-flattened")
         # `Array[Owner | None]`, `AnyOf[Owner | int, X]`: a Structure-first PEP 604 union as argument of a typedpy field
-        if n["s"] in ("sub", "mapSub", "anyOf", "tupSub") and any(struct_first_pipe(n[k]) for k in ("x", "y") if k in n):
-            out.append("pep604-structure-first-nested")
+        # (was the finding pep604-structure-first-nested, fixed in typedpy: no longer a known divergence)
         # `Tuple(items=Owner)` / `Tuple(items=[X, Owner])`: Tuple.__init__ converts Field classes only
-        if (n["s"] == "call" and n["c"] == "tuple" and n["x"]["s"] == "scls") or \
-                (n["s"] == "tupCall" and "scls" in (n["x"]["s"], n["y"]["s"])):
-            out.append("tuple-items-structure-class")
+        # (was the finding tuple-items-structure-class, fixed in typedpy: no longer a known divergence)
     d = f.get("dflt")
     if d and d["how"] == "kw" and not _truthy(d["v"]):
         out.append("falsy-default-kw")
-    if f["mode"] == "ann" and f.get("quoted") and v["future"]:
-        out.append("quoted-under-future-import")        # stored as the text of a string literal: evaluates to a str
-    elif f["mode"] == "ann" and f.get("quoted") and ann_len >= 50:
-        out.append("quoted-annotation-50")              # the 50-character guard (modules without the future import)
     if f.get("unresolved") and v.get("scope") == "enclosing":
         out.append("string-annotation-enclosing-scope")  # names of an enclosing function are not visible to eval
     res = []
@@ -1647,14 +1640,12 @@ def field_features(case, model, i):
     return out
 
 
-PRIORITY = ["quoted-under-future-import", "quoted-annotation-50", "string-annotation-enclosing-scope",
-            "falsy-default-kw", "tuple-items-structure-class", "pep604-structure-first-nested", "typing-union-duplicate",
+PRIORITY = ["string-annotation-enclosing-scope",
+            "falsy-default-kw", "typing-union-duplicate",
             "typing-union-flattened"]
 
 CAUSES = {
-    "definition-error": ["string-annotation-enclosing-scope", "tuple-items-structure-class",
-                         "pep604-structure-first-nested", "falsy-default-kw"],
-    "field-dropped": ["quoted-under-future-import", "quoted-annotation-50"],
+    "definition-error": ["string-annotation-enclosing-scope", "falsy-default-kw"],
     "error-class-differs": ["typing-union-duplicate"],
 }
 
